@@ -37,10 +37,10 @@ pub fn run_offset(ctx: &mut Ctx) {
                 ctx.out.m("offset", &hex(&b), &["offset_enc", &n.to_string()]);
                 // bijection on [0, 2^32): decode(encode n) = n, and the bytes are the LE digits
                 let back = read_offset(&b);
-                ctx.out.r("C09", "offset", back == Ok(n), &["offset_roundtrip", &n.to_string()]);
+                ctx.out.r("C09", "offset", back == Ok(n), &["offset_roundtrip", "offset_enc", &n.to_string()]);
                 let le = [(n & 0xff) as u8, ((n >> 8) & 0xff) as u8, ((n >> 16) & 0xff) as u8, ((n >> 24) & 0xff) as u8];
-                ctx.out.r("C09", "offset", b == le, &["offset_little_endian", &n.to_string()]);
-                ctx.out.r("C03", "offset", b == le, &["offset_little_endian", &n.to_string()]);
+                ctx.out.r("C09", "offset", b == le, &["offset_little_endian", "offset_enc", &n.to_string()]);
+                ctx.out.r("C03", "offset", b == le, &["offset_little_endian", "offset_enc", &n.to_string()]);
             }
             Err(_) => ctx.out.m("offset", "panic", &["offset_enc", &n.to_string()]),
         }
@@ -60,10 +60,10 @@ pub fn run_offset(ctx: &mut Ctx) {
             Err(_) => "panic".into(),
         };
         ctx.out.m("offset", &s, &["offset_read", &hex(&b)]);
-        ctx.out.r("C05", "offset", r.is_ok(), &["read_offset_no_panic", &hex(&b)]);
+        ctx.out.r("C05", "offset", r.is_ok(), &["read_offset_no_panic", "offset_read", &hex(&b)]);
         if let Ok(Ok(n)) = r {
             if b.len() == 4 {
-                ctx.out.r("C09", "offset", encode_length(n)[..] == b[..], &["offset_surjective", &hex(&b)]);
+                ctx.out.r("C09", "offset", encode_length(n)[..] == b[..], &["offset_surjective", "offset_read", &hex(&b)]);
             }
         }
     }
@@ -79,7 +79,7 @@ pub fn run_union(ctx: &mut Ctx) {
         Err(_) => "panic".into(),
     };
     ctx.out.m("union", &s, &["split_union", ""]);
-    ctx.out.r("C15", "union", matches!(r, Ok(Err(_))), &["split_empty_is_error"]);
+    ctx.out.r("C15", "union", matches!(r, Ok(Err(_))), &["split_empty_is_error", "split_union", ""]);
     for sel in 0..=255u8 {
         let rs = catch_unwind(|| UnionSelector::new(sel).map(u8::from));
         let s = match &rs {
@@ -88,7 +88,7 @@ pub fn run_union(ctx: &mut Ctx) {
             Err(_) => "panic".into(),
         };
         ctx.out.m("union", &s, &["selector", &sel.to_string()]);
-        ctx.out.r("C15", "union", matches!(&rs, Ok(Ok(x)) if *x == sel) == (sel <= 127) && rs.is_ok(), &["selector_new", &sel.to_string()]);
+        ctx.out.r("C15", "union", matches!(&rs, Ok(Ok(x)) if *x == sel) == (sel <= 127) && rs.is_ok(), &["selector_new", "selector", &sel.to_string()]);
         for body in &bodies {
             let mut b = vec![sel];
             b.extend_from_slice(body);
@@ -99,14 +99,14 @@ pub fn run_union(ctx: &mut Ctx) {
                 Err(_) => "panic".into(),
             };
             ctx.out.m("union", &s, &["split_union", &hex(&b)]);
-            ctx.out.r("C05", "union", r.is_ok(), &["split_no_panic", &hex(&b)]);
+            ctx.out.r("C05", "union", r.is_ok(), &["split_no_panic", "split_union", &hex(&b)]);
             let want_ok = sel <= 127;
             let good = match &r {
                 Ok(Ok((s, rest))) => want_ok && *s == sel && rest == body,
                 Ok(Err(_)) => !want_ok,
                 Err(_) => false,
             };
-            ctx.out.r("C15", "union", good, &["split_returns_first_byte_and_rest", &hex(&b)]);
+            ctx.out.r("C15", "union", good, &["split_returns_first_byte_and_rest", "split_union", &hex(&b)]);
         }
     }
 }
@@ -216,11 +216,11 @@ pub fn run_builder(ctx: &mut Ctx) {
                 let e = encode_items(&regs, &items, &[]);
                 // completeness oracle: every layout is accepted and yields the items back
                 let r = run_builder_case(&regs, &e);
-                ctx.out.r("C09", "builder", matches!(&r, Ok(Ok(got)) if *got == items), &["layout_accepted", &rs, &hex(&e)]);
+                ctx.out.r("C09", "builder", matches!(&r, Ok(Ok(got)) if *got == items), &["layout_accepted", "builder", &rs, &hex(&e)]);
                 // manual encoder with a pre-filled buffer (C10)
                 let pre = vec![0xEE, 0x01];
                 let e2 = encode_items(&regs, &items, &pre);
-                ctx.out.r("C10", "builder", e2[..2] == pre[..] && e2[2..] == e[..], &["manual_encoder_prefix", &rs, &hex(&e)]);
+                ctx.out.r("C10", "builder", e2[..2] == pre[..] && e2[2..] == e[..], &["manual_encoder_prefix", "builder", &rs, &hex(&e)]);
                 let muts = crate::codec::mutations(&mut ctx.rng, &e, ctx.thorough);
                 inputs.push(e);
                 inputs.extend(muts);
@@ -255,13 +255,13 @@ pub fn run_builder(ctx: &mut Ctx) {
                 Err(_) => "panic".into(),
             };
             ctx.out.m("builder", &s, &["builder", &rs, &hex(&b)]);
-            ctx.out.r("C05", "builder", r.is_ok(), &["builder_no_panic", &rs, &hex(&b)]);
+            ctx.out.r("C05", "builder", r.is_ok(), &["builder_no_panic", "builder", &rs, &hex(&b)]);
             if let Ok(Ok(items)) = &r {
                 ctx.out.bump("builder.ok");
                 // soundness oracle: re-assembling the slices with the encoder gives the input back
                 let fits = regs.iter().zip(items).all(|(r, it)| match r { Reg::Fixed(n) => it.len() == *n, Reg::Var => true });
                 let re = encode_items(&regs, items, &[]);
-                ctx.out.r("C09", "builder", fits && re == b && items.len() == regs.len(), &["slices_tile_input", &rs, &hex(&b)]);
+                ctx.out.r("C09", "builder", fits && re == b && items.len() == regs.len(), &["slices_tile_input", "builder", &rs, &hex(&b)]);
             } else {
                 ctx.out.bump("builder.err");
             }
@@ -412,16 +412,16 @@ pub fn run_listvar(ctx: &mut Ctx) {
         // unlimited, Vec-like
         let (s0, calls0, hint0, res0) = listvar_case::<VecC>(&b, None, |c| c.0);
         ctx.out.m("listvar", &listvar_line(&s0, &calls0, hint0), &["listvar", "-", "v", &hx]);
-        ctx.out.r("C05", "listvar", res0.is_ok(), &["listvar_no_panic", "-", "v", &hx]);
-        ctx.out.r("C16", "listvar", res0.is_ok(), &["listvar_no_panic", "-", "v", &hx]);
+        ctx.out.r("C05", "listvar", res0.is_ok(), &["listvar_no_panic", "listvar", "-", "v", &hx]);
+        ctx.out.r("C16", "listvar", res0.is_ok(), &["listvar_no_panic", "listvar", "-", "v", &hx]);
         if b.is_empty() {
-            ctx.out.r("C16", "listvar", matches!(&res0, Ok(Some(v)) if v.is_empty()), &["empty_input_empty_collection", &hx]);
+            ctx.out.r("C16", "listvar", matches!(&res0, Ok(Some(v)) if v.is_empty()), &["empty_input_empty_collection", "listvar", "-", "v", &hx]);
         }
         // C06: what the collection is told to reserve is physically present in the input
         if let Some(Some(n)) = hint0 {
-            ctx.out.r("C06", "listvar", 4 * n <= b.len(), &["size_hint_backed_by_input", &hx]);
+            ctx.out.r("C06", "listvar", 4 * n <= b.len(), &["size_hint_backed_by_input", "listvar", "-", "v", &hx]);
         }
-        ctx.out.r("C06", "listvar", calls0.iter().map(|c| c.len()).sum::<usize>() <= b.len() && calls0.len() * 4 <= b.len().max(0), &["calls_bounded_by_input", &hx]);
+        ctx.out.r("C06", "listvar", calls0.iter().map(|c| c.len()).sum::<usize>() <= b.len() && calls0.len() * 4 <= b.len().max(0), &["calls_bounded_by_input", "listvar", "-", "v", &hx]);
         // the real Vec path (the library's own TryFromIter for Vec)
         let rv = catch_unwind(AssertUnwindSafe(|| decode_list_of_variable_length_items::<Probe, Vec<Probe>>(&b, None)));
         let same = match (&rv, &res0) {
@@ -429,7 +429,7 @@ pub fn run_listvar(ctx: &mut Ctx) {
             (Ok(Err(_)), Ok(None)) => true,
             _ => false,
         };
-        ctx.out.r("C16", "listvar", same, &["vec_equals_probe_collection", &hx]);
+        ctx.out.r("C16", "listvar", same, &["vec_equals_probe_collection", "listvar", "-", "v", &hx]);
         // item count announced by the input, when the header is well-formed
         let announced = if b.len() >= 4 { Some(u32::from_le_bytes([b[0], b[1], b[2], b[3]]) as usize / 4) } else { None };
         let count = match &res0 { Ok(Some(v)) => Some(v.len()), _ => None };
@@ -443,18 +443,18 @@ pub fn run_listvar(ctx: &mut Ctx) {
         for m in limits {
             let (s, calls, hint, res) = listvar_case::<VecC>(&b, Some(m), |c| c.0);
             ctx.out.m("listvar", &listvar_line(&s, &calls, hint), &["listvar", &m.to_string(), "v", &hx]);
-            ctx.out.r("C05", "listvar", res.is_ok(), &["listvar_no_panic", &m.to_string(), "v", &hx]);
+            ctx.out.r("C05", "listvar", res.is_ok(), &["listvar_no_panic", "listvar", &m.to_string(), "v", &hx]);
             // announced count above the limit with a well-formed header: error, no item decoded, collection never asked
             if let (Some(c), Ok(Some(_))) = (count, &res0) {
                 if c > m {
-                    ctx.out.r("C16", "listvar", matches!(res, Ok(None)) && calls.is_empty() && hint.is_none(), &["over_limit_fails_before_work", &m.to_string(), &hx]);
+                    ctx.out.r("C16", "listvar", matches!(res, Ok(None)) && calls.is_empty() && hint.is_none(), &["over_limit_fails_before_work", "listvar", &m.to_string(), "v", &hx]);
                 } else {
-                    ctx.out.r("C16", "listvar", res == res0, &["within_limit_same_as_unlimited", &m.to_string(), &hx]);
+                    ctx.out.r("C16", "listvar", res == res0, &["within_limit_same_as_unlimited", "listvar", &m.to_string(), "v", &hx]);
                 }
             }
             if let Some(a) = announced {
                 if a > m && !b.is_empty() {
-                    ctx.out.r("C16", "listvar", calls.is_empty() && hint.is_none() && !matches!(res, Ok(Some(_))), &["announced_over_limit_no_work", &m.to_string(), &hx]);
+                    ctx.out.r("C16", "listvar", calls.is_empty() && hint.is_none() && !matches!(res, Ok(Some(_))), &["announced_over_limit_no_work", "listvar", &m.to_string(), "v", &hx]);
                 }
             }
         }
@@ -463,15 +463,15 @@ pub fn run_listvar(ctx: &mut Ctx) {
         ctx.out.m("listvar", &listvar_line(&s, &calls, hint), &["listvar", "-", "b1", &hx]);
         if let Some(c) = count {
             let ok = if c > 1 { matches!(res, Ok(None)) } else { res == res0 };
-            ctx.out.r("C16", "listvar", ok, &["bounded_collection_never_truncates", &hx]);
+            ctx.out.r("C16", "listvar", ok, &["bounded_collection_never_truncates", "listvar", "-", "b1", &hx]);
         }
-        ctx.out.r("C05", "listvar", res.is_ok(), &["listvar_no_panic", "-", "b1", &hx]);
+        ctx.out.r("C05", "listvar", res.is_ok(), &["listvar_no_panic", "listvar", "-", "b1", &hx]);
         let (s, calls, hint, res) = listvar_case::<Bounded<0>>(&b, Some(2), |c| c.0);
         ctx.out.m("listvar", &listvar_line(&s, &calls, hint), &["listvar", "2", "b0", &hx]);
-        ctx.out.r("C05", "listvar", res.is_ok(), &["listvar_no_panic", "2", "b0", &hx]);
+        ctx.out.r("C05", "listvar", res.is_ok(), &["listvar_no_panic", "listvar", "2", "b0", &hx]);
         let (s, calls, hint, res) = listvar_case::<Refusing>(&b, None, |_| vec![]);
         ctx.out.m("listvar", &listvar_line(&s, &calls, hint), &["listvar", "-", "r", &hx]);
-        ctx.out.r("C16", "listvar", matches!(res, Ok(None)), &["refusing_collection_is_error", &hx]);
+        ctx.out.r("C16", "listvar", matches!(res, Ok(None)), &["refusing_collection_is_error", "listvar", "-", "r", &hx]);
     }
 }
 
